@@ -47,8 +47,9 @@ func DefaultKnobs() Knobs {
 }
 
 type userEvent struct {
-	key  string
-	fire func()
+	key   string
+	fire  func()
+	light bool // fire() neither blocks nor drives the scheduler itself: it may be batched with network events
 }
 
 type Sched struct {
@@ -106,6 +107,16 @@ func (s *Sched) ActorsDone() bool {
 func (s *Sched) AddEvent(key string, fire func()) {
 	s.mu.Lock()
 	s.events = append(s.events, &userEvent{key: "user " + key, fire: fire})
+	s.mu.Unlock()
+	s.Net.Poke()
+}
+
+// AddLightEvent is AddEvent for an event whose fire() only flips state (it does not block, drain the network or run
+// the scheduler): such an event may also be applied in the same step as network events (see Knobs.WBatch), so that
+// whatever it wakes interleaves with the goroutines those woke.
+func (s *Sched) AddLightEvent(key string, fire func()) {
+	s.mu.Lock()
+	s.events = append(s.events, &userEvent{key: "user " + key, fire: fire, light: true})
 	s.mu.Unlock()
 	s.Net.Poke()
 }
@@ -193,7 +204,16 @@ func (s *Sched) step() bool {
 		used := map[int]bool{ci: true}
 		for ; extra > 0 && len(used) < len(cs); extra-- {
 			j := s.Tape.Intn(len(cs))
-			if used[j] || cs[j].net == nil || cs[j].key == c.key {
+			if used[j] || cs[j].key == c.key {
+				continue
+			}
+			if u := cs[j].user; u != nil {
+				if u.light {
+					used[j] = true
+					s.removeUser(u)
+					s.note("batched-user", u.key)
+					u.fire()
+				}
 				continue
 			}
 			used[j] = true
